@@ -903,8 +903,9 @@ class DecoderLayout:
             c = self.cursor_of(n.func.value)
             if c is not None:
                 enc = None
-                for a in list(n.args) + [k.value for k in n.keywords]:
-                    ok, v = self.fold(a)
+                enc_node = n.args[0] if n.args else next((k.value for k in n.keywords if k.arg == "encoding"), None)
+                if enc_node is not None:
+                    ok, v = self.fold(enc_node)
                     if ok:
                         enc = v
                 return self.rec("text", target, c[1], upto=c[2], encoding=enc, node=n)
@@ -1259,6 +1260,24 @@ class DecoderLayout:
             # while len(rest): ... repeated records until the packet is exhausted
             if isinstance(t, ast.Name) and t.id in self.cursors:
                 t = ast.Call(func=ast.Name(id="len", ctx=ast.Load()), args=[t], keywords=[])      # while rest:  ==  while len(rest):
+            # while len(rest) > k / >= k / != 0 / k < len(rest): the loop stops with up to `leftover` bytes unread
+            leftover = 0
+            if isinstance(t, ast.Compare) and len(t.ops) == 1:
+                l, op, r_ = t.left, t.ops[0], t.comparators[0]
+                if isinstance(l, ast.Constant) and isinstance(op, (ast.Lt, ast.LtE)):
+                    l, r_, op = r_, l, (ast.Gt() if isinstance(op, ast.Lt) else ast.GtE())
+                if isinstance(l, ast.Name) and l.id in self.cursors:
+                    l = ast.Call(func=ast.Name(id="len", ctx=ast.Load()), args=[l], keywords=[])
+                if isinstance(l, ast.Call) and isinstance(l.func, ast.Name) and l.func.id == "len" and len(l.args) == 1 \
+                        and isinstance(l.args[0], ast.Name) and l.args[0].id in self.cursors and isinstance(r_, ast.Constant) \
+                        and type(r_.value) is int and r_.value >= 0:
+                    k = r_.value
+                    if isinstance(op, ast.Gt):
+                        t, leftover = l, k
+                    elif isinstance(op, ast.GtE) and k >= 1:
+                        t, leftover = l, k - 1
+                    elif isinstance(op, ast.NotEq) and k == 0:
+                        t, leftover = l, 0
             if isinstance(t, ast.Call) and isinstance(t.func, ast.Name) and t.func.id == "len" and isinstance(t.args[0], ast.Name) \
                     and t.args[0].id in self.cursors:
                 cname = t.args[0].id
@@ -1271,7 +1290,7 @@ class DecoderLayout:
                 self.guards.pop()
                 body = self.reads[mark:]
                 del self.reads[mark:]
-                self.rec("repeat", None, start, body=body, advance=adv, node=s)
+                self.rec("repeat", None, start, body=body, advance=adv, node=s, leftover=leftover)
                 self.cursors[cname] = start.add(Lin(0, ("rest",)))
                 return
             raise AnalysisError("decoder of %s: loop %s not understood" % (self.cls.name, U(s.test)))
